@@ -211,6 +211,8 @@ class HasStates:
                 sm.status = sm.status[0], 'restarting'
         else:
             sm.status = status
+        # the idle status of an earlier run (e.g. 'stopped') is not the one of this run
+        kwds.setdefault('idle_status', (IDLE, ''))
         sm.start(statefunc, cleanup=kwds.pop('cleanup', self.on_cleanup), **kwds)
         self.read_status()
         if fast_poll:
